@@ -15,7 +15,7 @@ CHUNK = 1
 CASE_TIMEOUT = 1800
 RULE = ("explicit-state search over process states: a state is the canonical fingerprint of every attribute of every loaded pdpy11 module, "
         "class and module-level instance (nesting-depth counter, awaiting stack, handler stack, per-class tables; Deferred.next_instance_id "
-        "and the monotonic Progress.epoch clock normalised away); events = 49 assemblies (valid, forward references and deferred sizes, operator caches inside .repeat, warnings, "
+        "and the monotonic Progress.epoch clock normalised away); events = 51 assemblies (listings in which several names share a value, valid, forward references and deferred sizes, operator caches inside .repeat, warnings, "
         "errors of every phase, caught and reported cycles, formerly crashing inputs, multi-file, include, .once, other charset, command-"
         "line runs writing files, nested caret brackets, names of metacommands used as ordinary names, character literals in main and "
         "included files under three charsets, exports followed by private names of the same spelling, many local-label regions, normal "
